@@ -141,6 +141,10 @@ pub fn single_clauses(thorough: bool) -> Vec<Clause> {
     let fbinops = [BinOp::Eq, BinOp::In, BinOp::Ge];
     for q in &fq {
         out.extend(clauses_for(q, if thorough { &flits[..] } else { &flits[..3] }, &funops, &fbinops, thorough));
+        if !thorough {
+            // prefix `not` on the unary checks of filter queries (the `empty` shortcut on a filter that selects nothing)
+            out.extend(clauses_for(q, &[], &funops, &[], true).into_iter().filter(|c| matches!(c, Clause::Unary { not: true, .. })));
+        }
     }
     // `this`-headed spellings of a covering subset
     for q in qs.iter().take(8) {
